@@ -43,6 +43,7 @@ def check(ctx) -> None:
     r.title = 'every update collected during IDLE is written (= R1.9)'
     for i in r.instances:
         i.rule = 'R16.5'
+    c01.r110(ctx, 'R16.6')
 
 
 def _waits(cfg):
